@@ -275,6 +275,66 @@ func streamMac(c *ctx) {
 			}
 		}
 	}
+	// a key whose key material is absent, null or of another type is refused by every factory (the registered length
+	// cannot be met by something that is not a byte string); with and without kid / key_ops
+	for _, alg := range algs {
+		good := c.r.bytes(symKeySize[alg])
+		type variant struct {
+			name string
+			mk   func(k key.Key)
+		}
+		vs := []variant{
+			{"k absent", func(k key.Key) { delete(k, iana.SymmetricKeyParameterK) }},
+			{"k null", func(k key.Key) { k[iana.SymmetricKeyParameterK] = nil }},
+			{"k nil byte string", func(k key.Key) { k[iana.SymmetricKeyParameterK] = []byte(nil) }},
+			{"k text string", func(k key.Key) { k[iana.SymmetricKeyParameterK] = string(good) }},
+			{"k integer", func(k key.Key) { k[iana.SymmetricKeyParameterK] = 7 }},
+			{"k array of octets", func(k key.Key) {
+				a := make([]any, len(good))
+				for i, b := range good {
+					a[i] = int(b)
+				}
+				k[iana.SymmetricKeyParameterK] = a
+			}},
+			{"k under label 1 only (kty overwritten)", func(k key.Key) { delete(k, iana.SymmetricKeyParameterK); k["k"] = good }},
+		}
+		for _, v := range vs {
+			for deco := 0; deco < 3; deco++ {
+				kk := key.Key{iana.KeyParameterKty: iana.KeyTypeSymmetric, iana.KeyParameterAlg: alg, iana.SymmetricKeyParameterK: append([]byte{}, good...)}
+				switch deco {
+				case 1:
+					kk[iana.KeyParameterKid] = []byte("kid-1")
+				case 2:
+					kk[iana.KeyParameterKid] = []byte("kid-1")
+					kk[iana.KeyParameterKeyOps] = key.Ops{iana.KeyOperationMacCreate, iana.KeyOperationMacVerify}
+				}
+				v.mk(kk)
+				var e1, e2 error
+				var m key.MACer
+				if alg >= 4 && alg <= 7 {
+					e1 = hmac.CheckKey(kk)
+					m, e2 = hmac.New(kk)
+				} else {
+					e1 = aesmac.CheckKey(kk)
+					m, e2 = aesmac.New(kk)
+				}
+				m3, e3 := kk.MACer()
+				c.eval()
+				c.nontriv(fmt.Sprintf("badk|%d|%s|%d", alg, v.name, deco))
+				for fi, e := range []error{e1, e2, e3} {
+					if e == nil {
+						obs := "accepted"
+						if mm := []key.MACer{nil, m, m3}[fi]; mm != nil {
+							if tag, err := mm.MACCreate([]byte("data")); err == nil {
+								obs = fmt.Sprintf("accepted; MACCreate(\"data\") = %x", tag)
+							}
+						}
+						c.fail(failure{Op: "mac", What: "a key without usable key material is accepted (" + []string{"CheckKey", "New", "Key.MACer"}[fi] + "): " + v.name, Input: fmt.Sprintf("alg=%d key=%s", alg, fmt.Sprintf("%v", map[any]any(kk))), Observed: obs, Expected: "refused", Theorem: "C11_wrong_key_size_refused"})
+					}
+				}
+			}
+		}
+	}
 	// the reference hash functions against Go's (validates Lib/Sha2.v beyond the FIPS vectors)
 	for _, l := range []int{0, 1, 55, 56, 63, 64, 65, 111, 112, 119, 120, 127, 128, 129, 200, 1000} {
 		msg := c.r.bytes(l)
